@@ -40,7 +40,8 @@ TextClause(e) ==             \* t1 = to_string(v), v3 = from_string(t1), t2 = to
     ELSE IF ~EqModFloat(e.dt, e.v, e.v3.v) THEN "text.value"
     ELSE "ok"
 ClientClause(e) ==           \* str(CacheItem) -> client from_string -> sent data -> server import + validate
-    IF ~e.cs.ok /\ e.cs.e = "RangeError" /\ HasFloat(e.dt) THEN "ok"    \* the rounded text of a float at its limit: not decided
+    IF e.cw # Ok(e.v) THEN "client.set-parameter"                  \* setParameter(value) -> sent data -> server import + validate
+    ELSE IF ~e.cs.ok /\ e.cs.e = "RangeError" /\ HasFloat(e.dt) THEN "ok"    \* the rounded text of a float at its limit: not decided
     ELSE IF ~e.cs.ok \/ ~e.cssame THEN "text.client-set"
     ELSE IF ~EqModFloat(e.dt, e.v, e.cs.v) THEN "text.client-set.value"
     ELSE "ok"
